@@ -51,7 +51,7 @@ STD_CONST = {"c0.1": 0.1, "c1.5": math.log(1.5), "c1.7": math.log(1.7), "c1.9": 
              "c2.2": math.log(2.2), "c2.8": math.log(2.8), "c3.5": math.log(3.5)}
 STDS = list(STD_CONST) + ["b_f0", "b_lo_in", "b_lo_out", "b_hi_in", "b_hi_out",
                           "t2_small", "t2_big", "tup_big", "tneg_big"]
-SIGMA_F = [0.04, 0.09, 0.14, 0.19, 0.24, 0.3]          # multiples of the root's f0
+SIGMA_F = [0.04, 0.09, 0.14, 0.19, 0.24, 0.3, 0.0]     # multiples of the root's f0 (0: all windows peak on one sample)
 LWS = [60.0, 5.0, 20.0, 120.0]
 NWS = [20, 1, 5, 100]
 REL_SIDES = ["low/low", "high/high", "drop_in/one"]
@@ -64,6 +64,12 @@ def make_grid(name, f0):
     if name == "geo13":
         ks = range(-8, 9)
         return [f0 * 1.3 ** k for k in ks], 8
+    if name == "geo13lin":
+        # same length, first, last and f0 sample as geo13, but both halves linearly spaced: the samples
+        # nearest to a given limit sit at OTHER positions than on geo13
+        lo, hi = f0 * 1.3 ** -8, f0 * 1.3 ** 8
+        return ([lo + (f0 - lo) * j / 8.0 for j in range(8)] + [f0] +
+                [f0 + (hi - f0) * j / 8.0 for j in range(1, 8)] + [hi]), 8
     if name == "geo103":
         ks = range(-56, 57)
         return [f0 * 1.03 ** k for k in ks], 56
@@ -375,6 +381,14 @@ def _spaces(tier):
 
 
 def run_root(root, ctx, tier):
+    if root.get("grids"):
+        # two grids with equal length and end points, one after the other in the same process
+        for g in root["grids"]:
+            sub = dict(root, grid=g)
+            del sub["grids"]
+            run_root(sub, ctx, tier)
+        ctx.count("grid_pair_roots")
+        return
     R = Root(root)
     if not R.valid:
         ctx.count("roots_invalid")
@@ -544,6 +558,10 @@ def roots(tier, seed):
         if r["range"] in ("excl_open", "excl_closed", "at_peak") and r["second"] == "none":
             continue
         out.append(dict(r))
+    for f0 in ([1.0, 0.3] if tier == "quick" else F0S):
+        for rng in ("wide", "narrow", "lo_only", "hi_only"):
+            for grids in (["geo13", "geo13lin"], ["geo13lin", "geo13"]):
+                out.append(dict(grid=grids[0], grids=grids, f0=f0, second="none", range=rng))
     return out
 
 
